@@ -9,6 +9,9 @@
 //!                                            (`Frame::get_length`) is L, then a small one; a library subscriber /
 //!                                            replier is attached. Frames up to the limit must pass; a request that
 //!                                            outgrows the limit once the router tags it is dropped, nothing else
+//!   reg lib <RP|RR> <pub|sub|req>           a raw peer makes the topic a pub/sub (RP) or request/reply (RR) one; then a
+//!                                            LIBRARY client opens a stream in the given role: `open()` must succeed or
+//!                                            report the server's refusal as an error carrying its code
 //!   reg iso <nsA> <tpA> <nsB> <tpB>         (hex) raw subscribers and publishers on two names; each publisher sends one
 //!                                            message; every subscriber must see exactly the traffic of its own name
 //! Frames use the notation of wire.rs (`RP ns topic ret ops`, `M headers msg`, `OK`, …), `_` for spaces inside.
@@ -266,6 +269,24 @@ async fn run_case(addr: SocketAddr, certs: &Certs, t: &[&str]) -> anyhow::Result
                 Ok(format!("{a} {} reply={reply} after={after} probe={probe}", if sent { "sent" } else { "refused" }))
             }
         }
+        "lib" => {
+            let (ns, tp) = fresh();
+            let conn = raw(addr, certs).await?;
+            let mut s1 = raw_stream(&conn).await?;
+            s1.send(reg_frame(t[2], &ns, &tp)).await?;
+            let a1 = answer(&mut s1).await;
+            tokio::time::sleep(Duration::from_millis(50)).await;
+            let topic = format!("/{ns}/{tp}");
+            let client = client(addr, certs, BackoffStrategy::constant().with_max_attempts(0)).await?;
+            let code = |e: &selium::std::errors::SeliumError| match e { selium::std::errors::SeliumError::OpenStream(c, _) => format!("err:{c}"), other => format!("err:{}", format!("{other:?}").split(|c: char| !c.is_alphanumeric()).next().unwrap_or("?")) };
+            let a2 = match t[3] {
+                "pub" => match tokio::time::timeout(Duration::from_secs(4), client.publisher(&topic).with_encoder(StringCodec).open()).await { Err(_) => "hang".to_string(), Ok(Ok(_)) => "ok".to_string(), Ok(Err(e)) => code(&e) },
+                "sub" => match tokio::time::timeout(Duration::from_secs(4), client.subscriber(&topic).with_decoder(StringCodec).open()).await { Err(_) => "hang".to_string(), Ok(Ok(_)) => "ok".to_string(), Ok(Err(e)) => code(&e) },
+                _ => match tokio::time::timeout(Duration::from_secs(4), client.requestor(&topic).with_request_encoder(StringCodec).with_reply_decoder(StringCodec).open()).await { Err(_) => "hang".to_string(), Ok(Ok(_)) => "ok".to_string(), Ok(Err(e)) => code(&e) },
+            };
+            drop(s1);
+            Ok(format!("{a1} lib={a2} probe=ok"))
+        }
         "iso" => {
             let name = |i: usize| (String::from_utf8_lossy(&unhx(t[i])).to_string(), String::from_utf8_lossy(&unhx(t[i + 1])).to_string());
             let (a, b) = (name(2), name(4));
@@ -390,6 +411,7 @@ pub fn run(cfg: &Cfg) {
         let max = (1usize << 20) /* the property's 1 MiB */;
         for l in [max - 20, max - 9, max - 8, max - 1, max, max + 1] { cases.push(format!("reg big RP {l}")); }
         for l in [max - 100, max - 28, max - 27, max - 9, max, max + 1] { cases.push(format!("reg big RQ {l}")); }
+        for first in ["RP", "RR"] { for second in ["pub", "sub", "req"] { cases.push(format!("reg lib {first} {second}")); } }
         cases.push("reg stall 130".into());
         cases.push("reg stall 420".into());
         // isolation between names that are close to each other: the same text with the separator elsewhere, swapped
@@ -429,7 +451,7 @@ pub fn run(cfg: &Cfg) {
                 let probe_ok = line.split(' ').filter(|x| x.contains('=') && ["probe", "queued-peer", "blocked-publisher", "other-names"].contains(&x.split('=').next().unwrap())).all(|x| x.ends_with("=ok"));
                 if !probe_ok { dead = line.contains("hang"); m = Err(format!("C11/C17: after `{}` well-behaved clients are no longer served: {line}", t[1..].join(" ").chars().take(80).collect::<String>())); }
                 if m.is_ok() {
-                    let answers: Vec<&str> = line.split(' ').filter(|x| !x.starts_with("probe=") && !x.starts_with("queued-peer=") && !x.starts_with("blocked-publisher=") && !x.starts_with("other-names=") && !x.starts_with("a=") && !x.starts_with("b=")).collect();
+                    let answers: Vec<&str> = line.split(' ').filter(|x| !x.starts_with("probe=") && !x.starts_with("queued-peer=") && !x.starts_with("blocked-publisher=") && !x.starts_with("other-names=") && !x.starts_with("a=") && !x.starts_with("b=") && !x.starts_with("lib=")).collect();
                     for a in &answers {
                         if *a == "timeout" { m = Err(format!("C11: a stream was neither served nor refused nor closed: {line}")); }
                     }
@@ -439,6 +461,11 @@ pub fn run(cfg: &Cfg) {
                         if l <= max && !line.contains(" sent ") { m = Err(format!("C05/C11: a frame of payload length {l} <= limit was refused by the encoder: {line}")); }
                         if t[2] == "RP" && l <= max && !line.contains(&format!("got={},5 ", l - 9)) { m = Err(format!("C11/C03: a publisher's frame within the limit (payload length {l}) did not reach the subscriber, or took the following message with it: {line}")); }
                         if t[2] == "RQ" && !line.contains("after=len5") { m = Err(format!("C11: after a request of payload length {l} the next request on the same stream was not answered: {line}")); }
+                    }
+                    if t[1] == "lib" {
+                        let same = (t[2] == "RP") == (t[3] == "pub" || t[3] == "sub");
+                        let want = if same { "lib=ok" } else { "lib=err:7" };
+                        if !line.contains(want) { m = Err(format!("C11: a library client opening a {} stream on a {} topic: {line} (an accepted role must open, a refused one must be reported as an error with the server's code)", t[3], if t[2] == "RP" { "pub/sub" } else { "request/reply" })); }
                     }
                     if t[1] == "iso" {
                         let same = t[2] == t[4] && t[3] == t[5];
